@@ -248,6 +248,7 @@ func (i *inspect) fks(ctx context.Context, t *schema.Table) error {
 }
 
 func (i *inspect) addFKs(t *schema.Table, rows *sql.Rows) error {
+	defer rows.Close()
 	ids := make(map[int]*schema.ForeignKey)
 	for rows.Next() {
 		var (
